@@ -3718,6 +3718,17 @@ func (p *Posix) getObject(_ context.Context, input *s3.GetObjectInput) (*s3.GetO
 }
 
 func (p *Posix) HeadObject(ctx context.Context, input *s3.HeadObjectInput) (*s3.HeadObjectOutput, error) {
+	// like GetObject: start over when the object was replaced while its
+	// size and attributes were being read by path
+	for i := 0; ; i++ {
+		out, err := p.headObject(ctx, input)
+		if !errors.Is(err, errObjectReplaced) || i == 9 {
+			return out, err
+		}
+	}
+}
+
+func (p *Posix) headObject(ctx context.Context, input *s3.HeadObjectInput) (*s3.HeadObjectOutput, error) {
 	if input.Bucket == nil {
 		return nil, s3err.GetAPIError(s3err.ErrInvalidBucketName)
 	}
@@ -3897,6 +3908,11 @@ func (p *Posix) HeadObject(ctx context.Context, input *s3.HeadObjectInput) (*s3.
 		if checksums.Type != "" {
 			cType = checksums.Type
 		}
+	}
+
+	// everything above was read by path: make sure it was read from one file
+	if nfi, err := os.Stat(objPath); err != nil || !os.SameFile(fi, nfi) {
+		return nil, errObjectReplaced
 	}
 
 	return &s3.HeadObjectOutput{
